@@ -155,9 +155,11 @@ def run_program(ls, rng, fc, mask, nzcv):
             kinds.append(exc)
         elif i == n - 1 and rng.random() < 0.45:
             # a branch as the last instruction of the block: B, or an interworking branch to ARM or Thumb code
-            bk = rng.choice(['b', 'b', 'bx', 'bx', 'blx', 'pop', 'ldrpc', 'movpc'])
-            if bk == 'ldrpc' and exc == 'abort':
+            bk = rng.choice(['b', 'b', 'bx', 'bx', 'blx', 'pop', 'ldrpc', 'movpc', 'rfe'])
+            if bk in ('ldrpc', 'rfe') and exc == 'abort':
                 bk = 'bx'
+            if bk == 'rfe' and desc['mode'] == 'usr':
+                bk = 'bx'                                         # RFE is UNPREDICTABLE in User mode
             to_arm = rng.random() < 0.5
             target = (code + 0x100) if to_arm else ((code + 0x80) | 1)
             if bk == 'b':
@@ -168,6 +170,14 @@ def run_program(ls, rng, fc, mask, nzcv):
                 body += (0x47B8).to_bytes(2, 'little')           # BLX r7
             elif bk == 'movpc':
                 body += (0x46BF).to_bytes(2, 'little')           # MOV pc, r7
+            elif bk == 'rfe':
+                # an exception return as the block's last instruction: RFEIA r6 (T2) loading the target and a CPSR image
+                # that keeps the mode and selects the target's instruction set - skipped like anything else when the
+                # slot's condition fails
+                body += (0xE996).to_bytes(2, 'little') + (0xC000).to_bytes(2, 'little')
+                img = (r.cpsr.value & 0xF80F03DF) | (0 if to_arm else 0x20)
+                bo = 'big' if r.cpsr.e else 'little'
+                M.poke(cpu, 0x1000, (target & ~1).to_bytes(4, bo) + img.to_bytes(4, bo))
             elif bk == 'pop':
                 body += (0xBD00).to_bytes(2, 'little')           # POP {pc}
                 M.poke(cpu, 0x7000, target.to_bytes(4, 'little'))
@@ -205,7 +215,7 @@ def run_program(ls, rng, fc, mask, nzcv):
         off = 0
         tail = bytearray()
         for k_ in kinds:
-            ln = 4 if k_.startswith(('a32', 'r32', 'ldrpc')) else 2
+            ln = 4 if k_.startswith(('a32', 'r32', 'ldrpc', 'rfe')) else 2
             if k_ in ('a16', 'r16'):
                 tail += body[off:off + 2]
             off += ln
